@@ -1,4 +1,6 @@
-import Mainchain.Lemmas.GenesisInv
+import Mainchain.Lemmas.RegImport
+import Mainchain.Lemmas.Witness
+import Mainchain.Lemmas.RegistryReach
 /-
 C15 — Genesis export and import are lossless.
 
@@ -66,6 +68,45 @@ theorem c15_enterprise_stream_bank_lossless (g : GenCfg) (hg : GenBooksValid g) 
   obtain ⟨o1, o2, o3, o4, o5, o6, o7, o8, o9, o10⟩ := importEnt_observe s.ent ha.book
   exact ⟨_, c15_import_succeeds g hg s h hq hgov, rfl, rfl, rfl, rfl, rfl, o1, o2, o3, o4, o5, o6, o7, o8, o9, o10⟩
 
+/-- **The enterprise section is identical.**  Orders are stored by ascending id and the whitelist ascending in
+every state of every run, and the import rebuilds both in that order: the imported enterprise state is the
+*same value* as the exported one (not merely observably equal), and so are the bank, the stream section, the
+authorisations, the fee allowances and the block time.  Every later transaction that does not read the
+WRKChain / BEACON sections therefore has literally the same effect on both chains. -/
+theorem c15_enterprise_identical (g : GenCfg) (hg : GenBooksValid g) (s : State) (h : FineReach g (BooksQ g.ent.denom) s)
+    (hq : s.ent.params.denom = g.ent.denom) (hgov : (s.bank.allBalances Mgov).isEmpty = true) :
+    exportImport Facts.initGenesisOrder s = .ok { s with wrk := importReg s.wrk, bcn := importReg s.bcn } := by
+  rw [c15_import_succeeds g hg s h hq hgov]
+  obtain ⟨hb, hc⟩ := canon_reachable g s (h.weaken (fun _ hq => hq.2.1))
+  rw [importEnt_eq s.ent hb hc]
+
+/-- **The WRKChain and BEACON sections, entry by entry.**  After the import each registry has the same
+parameters and id counter, every registration with its owner, moniker, name, hashes, registration time and last
+height / id, the stored limit of every registration, and exactly the newest 20,000 records of every
+registration; the two counters of a registration (number in state, lowest in state) are recomputed from those
+records. -/
+theorem c15_registries_newest (g : GenCfg) (hg : GenBooksValid g) (hr : GenRegValid g) (s : State)
+    (h : FineReach g (fun s => BooksQ g.ent.denom s ∧ RegQ s) s)
+    (hq : s.ent.params.denom = g.ent.denom) (hgov : (s.bank.allBalances Mgov).isEmpty = true) :
+    ∃ s', exportImport Facts.initGenesisOrder s = .ok s' ∧ RegNewest s.wrk s'.wrk ∧ RegNewest s.bcn s'.bcn := by
+  refine ⟨_, c15_enterprise_identical g hg s (h.weaken (fun _ hq => hq.1)) hq hgov, ?_, ?_⟩
+  · exact importReg_newest s.wrk (wrkInv_reachable g hr s (h.weaken (fun _ hq => hq.2.1))).reg
+  · exact importReg_newest s.bcn (bcnInv_reachable g hr s (h.weaken (fun _ hq => hq.2.2))).reg
+
+/-- **Lossless registries.**  When no registration retains more than 20,000 records (always the case while the
+maximum storage limit parameter is at most 20,000) nothing is dropped and the recomputed counters are the stored
+ones: every point read of the imported WRKChain and BEACON sections — parameters, id counter, registration,
+limit, record — answers exactly as before the export. -/
+theorem c15_registries_lossless (g : GenCfg) (hg : GenBooksValid g) (hr : GenRegValid g) (s : State)
+    (h : FineReach g (fun s => BooksQ g.ent.denom s ∧ RegQ s) s)
+    (hq : s.ent.params.denom = g.ent.denom) (hgov : (s.bank.allBalances Mgov).isEmpty = true)
+    (hcw : ∀ id, (s.wrk.retained id).length ≤ exportCap) (hcb : ∀ id, (s.bcn.retained id).length ≤ exportCap) :
+    ∃ s', exportImport Facts.initGenesisOrder s = .ok s' ∧ s'.ent = s.ent ∧ s'.bank = s.bank ∧ s'.str = s.str ∧
+      RegSame s.wrk s'.wrk ∧ RegSame s.bcn s'.bcn := by
+  refine ⟨_, c15_enterprise_identical g hg s (h.weaken (fun _ hq => hq.1)) hq hgov, rfl, rfl, rfl, ?_, ?_⟩
+  · exact importReg_same_wrk s.wrk (wrkInv_reachable g hr s (h.weaken (fun _ hq => hq.2.1))) hcw
+  · exact importReg_same_bcn s.bcn (bcnInv_reachable g hr s (h.weaken (fun _ hq => hq.2.2))) hcb
+
 /-- the enterprise section is imported twice (it is listed twice in the genesis order): the second import
 changes nothing, because the import is a function of the exported document alone -/
 theorem c15_double_enterprise_import_idempotent (exp : State) (acc : State × List GStep)
@@ -93,6 +134,45 @@ def wState : State :=
 theorem c15_stream_after_crisis_panics :
     (exportImport ["bank", "gov", "enterprise", "crisis", "enterprise", "beacon", "wrkchain", "stream"] wState).isOk = false ∧
     (exportImport Facts.initGenesisOrder wState).isOk = true := by
+  decide +kernel
+
+/-- non-vacuity of the registry statements: a state with a WRKChain that retains its newest three of four
+records (limit 3) and a BEACON with two timestamps; the import succeeds and every registration, limit and record is
+read back unchanged -/
+def rTx (_n : Nat) (fee : Int) (m : Msg) : Tx :=
+  { signers := [0], granter := none, fee := (if fee = 0 then [] else [{ denom := "nund", amt := fee }]), sig := .ok, msgs := [m] }
+
+def rRec (h : String) : Rec := { key := 0, h0 := h, h1 := "", h2 := "", h3 := "", h4 := "", subTime := 0 }
+
+def rState : State :=
+  [rTx 1 24 (.regReg .wrk "mon" "name" "gen" "geth" (.ok 0 false)),
+   rTx 2 24 (.regReg .bcn "mon" "name" "" "" (.ok 0 false)),
+   rTx 3 2 (.regRec .wrk 1 1 (rRec "a") (.ok 0 false)), rTx 4 2 (.regRec .wrk 1 2 (rRec "b") (.ok 0 false)),
+   rTx 5 2 (.regRec .wrk 1 5 (rRec "c") (.ok 0 false)), rTx 6 2 (.regRec .wrk 1 9 (rRec "d") (.ok 0 false)),
+   rTx 7 2 (.regRec .bcn 1 0 { rRec "x" with subTime := 1700000005 } (.ok 0 false)), rTx 8 2 (.regRec .bcn 1 0 { rRec "y" with subTime := 1700000005 } (.ok 0 false))].foldl
+    (fun s tx => (deliverTx Facts.anteOrder 0 s tx).1) { initState wGen with time := 1700000005 * nsPerSec }
+
+def rCheck : Bool :=
+  decide (keys rState.wrk.recs = [(1, 2), (1, 5), (1, 9)]) && decide (keys rState.bcn.recs = [(1, 1), (1, 2)]) &&
+  (match exportImport Facts.initGenesisOrder rState with
+   | .ok s' => decide (s'.ent.orders = rState.ent.orders) && decide (s'.wrk.regs = rState.wrk.regs) && decide (s'.wrk.limits = rState.wrk.limits) &&
+       decide (s'.wrk.recs = rState.wrk.recs) && decide (s'.bcn.regs = rState.bcn.regs) && decide (s'.bcn.recs = rState.bcn.recs)
+   | .error _ => false)
+
+example : rCheck = true := by decide +kernel
+
+/-- **known finding (same root cause as C14 halt/B-denom-change), negation witness.**  An order is raised,
+accepted by two of three signers, tallied and completed (777 nund locked); governance then changes the enterprise
+denomination to `atoken`.  The books stay in `nund`: the export of that state cannot be imported — enterprise
+`InitGenesis` panics in the balance comparison — while the same history without the parameter change imports
+fine.  The theorems above exclude such histories by `BooksQ` (the denomination is the genesis one). -/
+def dChanged : State :=
+  (govExec 0 dLocked (.entParams (.ok Mgov false) { dGen.ent with denom := "atoken" })).1
+
+theorem c15_denom_change_breaks_import :
+    dLocked.ent.totalLocked = { denom := "nund", amt := 777 } ∧ dChanged.ent.params.denom = "atoken" ∧
+    (exportImport Facts.initGenesisOrder dLocked).isOk = true ∧
+    (exportImport Facts.initGenesisOrder dChanged).isOk = false := by
   decide +kernel
 
 end C15
